@@ -274,45 +274,16 @@ impl<'a> Hist<'a> {
 
     /// stop-and-close probe on a copy of the current stage
     pub fn close_probe(&mut self, ctx: &mut Ctx, expect_balances: (i128, i128)) {
-        let book = ctx.book.clone();
         let stage = match &self.stage { Some(s) => s, None => return };
-        let fields = match stage_fields(&book, stage) { Some(f) => f, None => return };
         let copy = match stage.restore() { Ok(s) => s, Err(_) => return };
-        let mut rng = ScriptedRng::new(ctx.prng.gen(), book.clone());
         let zero = ctx.prng.gen_range(0..40) == 0;
-        if zero { rng.force_scalars(&[Scalar::zero()]); }
-        let name = copy.name();
-        let cm: ClosingMessage = match copy {
-            Stage::Requested(_) => return,
-            Stage::Inactive(x) => x.close(&mut rng),
-            Stage::Ready(x) => x.close(&mut rng),
-            Stage::Started(x) => x.close(&mut rng),
-            Stage::Locked(x) => x.close(&mut rng),
-        };
-        let r = match rng.scalars_in_log().first() { Some(r) => *r, None => { ctx.broken("close() drew no re-randomiser"); return; } };
-        let mb = wire::ser(&cm); // sig 96 | cid 32 | lock 32 | mb 8 | cb 8
-        let (cb_v, mb_v) = (u64_at(&mb, 168), u64_at(&mb, 160));
-        let mut cidb = [0u8; 32]; cidb.copy_from_slice(&mb[96..128]);
-        let cid_s = zkabacus_crypto::verif_hooks::channel_id_to_scalar(wire::de(&cidb).unwrap());
-        let (sig, cs) = cm.into_parts();
-        let ok = matches!(self.w.merchant.check_close_signature(sig, &cs), Verification::Verified);
-        let mut reals = vec![Real::V("closing".into())];
-        if r == Scalar::zero() {
-            reals.extend(vec![Real::G1(G1Affine::identity()), Real::G1(G1Affine::identity())]);
-        } else {
-            match sig_reals(&mb[..96]) { Some(s) => reals.extend(s), None => return }
-        }
-        reals.extend(vec![Real::S(cid_s), Real::S(s_at(&mb, 128).unwrap()), Real::N(cb_v as u128), Real::N(mb_v as u128), Real::B(ok)]);
-        let line = format!("cust close {} {} | {} | {}", pk_args(&self.w.kpd.pk), hex_s(&CLOSE_SCALAR), fields, hex_s(&r));
-        let _ = ctx.expect(&line, &reals);
-        ctx.count(&format!("close:{}:{}{}", name, ok, if r == Scalar::zero() { ":zero-randomiser" } else { "" }));
-        if r != Scalar::zero() && !ok {
-            ctx.violation(&format!("the merchant's close check rejects the customer's closing message at stage {}", name), json!({"class": "close-rejected", "stage": name}));
-        }
+        let out = match close_checked(ctx, self.w, copy, zero) { Some(o) => o, None => return };
+        let (name, mb) = (out.name, &out.bytes);
+        let (cb_v, mb_v) = (u64_at(mb, 168), u64_at(mb, 160));
         if (cb_v as i128, mb_v as i128) != expect_balances {
             ctx.violation(&format!("closing message at stage {} carries balances ({}, {}), the ledger says ({}, {})", name, cb_v, mb_v, expect_balances.0, expect_balances.1), json!({"class": "closing-balances", "stage": name}));
         }
-        if cidb != self.a.cid.to_bytes() {
+        if mb[96..128] != self.a.cid.to_bytes() {
             ctx.violation("closing message carries another channel id", json!({"class": "closing-channel-id", "stage": name}));
         }
         let mut lock = [0u8; 32]; lock.copy_from_slice(&mb[128..160]);
@@ -320,6 +291,53 @@ impl<'a> Hist<'a> {
             ctx.violation(&format!("closing message at stage {} uses a revocation lock that was already disclosed", name), json!({"class": "closing-lock-disclosed", "stage": name}));
         }
     }
+}
+
+pub struct CloseOut {
+    pub name: &'static str,
+    /// sig 96 | cid 32 | lock 32 | mb 8 | cb 8
+    pub bytes: Vec<u8>,
+    pub r: Scalar,
+    pub ok: bool,
+}
+
+/// `close()` of a stage under the scripted RNG: the closing message is compared with the model's
+/// (stored signature re-randomised by the drawn `r`, stage-specific state) and given to the real
+/// merchant's close check.
+pub fn close_checked(ctx: &mut Ctx, w: &World, stage: Stage, zero: bool) -> Option<CloseOut> {
+    let book = ctx.book.clone();
+    let fields = stage_fields(&book, &stage)?;
+    let mut rng = ScriptedRng::new(ctx.prng.gen(), book.clone());
+    if zero { rng.force_scalars(&[Scalar::zero()]); }
+    let name = stage.name();
+    let cm: ClosingMessage = match stage {
+        Stage::Requested(_) => return None,
+        Stage::Inactive(x) => x.close(&mut rng),
+        Stage::Ready(x) => x.close(&mut rng),
+        Stage::Started(x) => x.close(&mut rng),
+        Stage::Locked(x) => x.close(&mut rng),
+    };
+    let r = match rng.scalars_in_log().first() { Some(r) => *r, None => { ctx.broken("close() drew no re-randomiser"); return None; } };
+    let mb = wire::ser(&cm);
+    let (cb_v, mb_v) = (u64_at(&mb, 168), u64_at(&mb, 160));
+    let mut cidb = [0u8; 32]; cidb.copy_from_slice(&mb[96..128]);
+    let cid_s = zkabacus_crypto::verif_hooks::channel_id_to_scalar(wire::de(&cidb).unwrap());
+    let (sig, cs) = cm.into_parts();
+    let ok = matches!(w.merchant.check_close_signature(sig, &cs), Verification::Verified);
+    let mut reals = vec![Real::V("closing".into())];
+    if r == Scalar::zero() {
+        reals.extend(vec![Real::G1(G1Affine::identity()), Real::G1(G1Affine::identity())]);
+    } else {
+        reals.extend(sig_reals(&mb[..96])?);
+    }
+    reals.extend(vec![Real::S(cid_s), Real::S(s_at(&mb, 128).unwrap()), Real::N(cb_v as u128), Real::N(mb_v as u128), Real::B(ok)]);
+    let line = format!("cust close {} {} | {} | {}", pk_args(&w.kpd.pk), hex_s(&CLOSE_SCALAR), fields, hex_s(&r));
+    let _ = ctx.expect(&line, &reals);
+    ctx.count(&format!("close:{}:{}{}", name, ok, if r == Scalar::zero() { ":zero-randomiser" } else { "" }));
+    if r != Scalar::zero() && !ok {
+        ctx.violation(&format!("the merchant's close check rejects the customer's closing message at stage {}", name), json!({"class": "close-rejected", "stage": name}));
+    }
+    Some(CloseOut { name, bytes: mb, r, ok })
 }
 
 fn closing_of(reply: &[u8], obj: Option<Obj>) -> ClosingSignature {
